@@ -26,8 +26,9 @@
 (*              A stream is: tar header junk, chunk, junk, chunk, ...      *)
 (*              (min-chunk-size builds put several chunks/files into one). *)
 (*   L.prefetch = TRUE iff the landmark is the *prefetch* landmark         *)
-(* Byte i of file f is the number Src(f, i); results are sequences of such *)
-(* numbers, so every result projects to source positions.                  *)
+(* Byte i of file f is the number Src(f, i) = (16f+i) mod 251 + 1; results *)
+(* are sequences of such numbers, so every result projects to source       *)
+(* positions.                                                              *)
 (*                                                                         *)
 (* Deliberate deviations from the code (named, not hidden):                *)
 (*  - chunk digests/verification are not modelled (C01);                   *)
@@ -46,6 +47,8 @@ CONSTANTS
     ChunkTab,       \* initial L.chunks
     PrefetchOn,     \* initial L.prefetch
     Lens,           \* buffer lengths of reads
+    Offs,           \* offsets of reads (those <= size + 1 are used)
+    EvictOffs,      \* chunk offsets whose cache entries the environment may drop (bounds the state graph of large files)
     \* negative controls: property-bearing pieces of the code, TRUE = as in the code
     LocateOK,       \* ChunkEntryForOffset finds the chunk CONTAINING the offset (>= at the boundary)
     DiscardOK,      \* lowerDiscard = offset - chunkOffset (not off by one)
@@ -66,7 +69,7 @@ Range(s) == {s[i] : i \in DOMAIN s}
 
 Files == {p[1] : p \in Range(L.sizes)}
 FSize(f) == (CHOOSE p \in Range(L.sizes) : p[1] = f)[2]
-Src(f, i) == IF f = LM THEN 15 ELSE 16 * f + i + 1
+Src(f, i) == IF f = LM THEN 15 ELSE ((16 * f + i) % 251) + 1      \* = 16*f+i+1 for the small files; 251 is prime to every chunk size used
 SrcRange(f, off, n) == [i \in 1..n |-> Src(f, off + i - 1)]
 
 \* chunk tuple accessors: <<f, off, size, st, inner>>
@@ -208,10 +211,10 @@ Evict(k) ==
 ReadFiles == Files \ {LM}
 
 Next ==
-    \/ \E f \in ReadFiles, len \in Lens : \E off \in 0..(FSize(f) + 1) : Read(f, off, len)
+    \/ \E f \in ReadFiles, len \in Lens : \E off \in {o \in Offs : o <= FSize(f) + 1} : Read(f, off, len)
     \/ Prefetch
     \/ BackgroundFetch
-    \/ \E e \in cache : Evict(<<e[1], e[2], e[3]>>)
+    \/ \E e \in cache : e[2] \in EvictOffs /\ Evict(<<e[1], e[2], e[3]>>)
 
 Spec == Init /\ [][Next]_vars
 
